@@ -43,7 +43,11 @@ def pool():
 
 
 ATTRS = [None, {'stroke': '#f00'}, {'stroke-width': '2', 'fill': 'none', 'id': 'p1'}, {'d': 'M 9 9 L 8 7', 'stroke': '#0f0'},
-         {'xml:lang': 'en', 'xml:space': 'preserve', 'stroke': '#00f'}]
+         {'xml:lang': 'en', 'xml:space': 'preserve', 'stroke': '#00f'},
+         # values with characters that XML has to escape or write as character references to keep them
+         {'id': 'a&b', 'data-q': 'say "<hi>" & \'bye\'', 'stroke': '#123'},
+         # line break / tab inside a value (a multi-line style attribute, say): survives only as &#10; / &#9;
+         {'data-note': 'first line\nsecond\tcolumn', 'stroke': '#456'}]
 SVGATTRS = [None, {'viewBox': '0 0 100 100', 'width': '200px', 'height': '100px'}, {'height': '77mm'}, {'width': '30cm'}]
 
 
@@ -144,7 +148,10 @@ def read_back(fn, paths, attributes, svgat, case, sig, acc):
         if attributes is not None:
             for k, (sup, ret) in enumerate(zip(attributes, got_attrs)):
                 if not attrs_contained(sup, ret):
-                    acc.violation('attribute_lost_or_changed', sg, c, observed={k_: ret.get(k_) for k_ in sup}, expected=sup)
+                    ws_only = all(ret.get(k_) == v_ or (isinstance(ret.get(k_), str) and ret.get(k_) == v_.replace('\n', ' ').replace('\t', ' ').replace('\r', ' '))
+                                  for k_, v_ in sup.items())
+                    acc.violation('attribute_lost_or_changed', dict(sg, only_line_breaks_and_tabs_became_spaces=ws_only), c,
+                                  observed={k_: ret.get(k_) for k_ in sup}, expected=sup)
                     break
         if svgat is not None and got_svg is not None:
             if not attrs_contained(svgat, got_svg):
@@ -156,7 +163,7 @@ def read_back(fn, paths, attributes, svgat, case, sig, acc):
 DOC_OPS = [
     ['add_path', 'Path', 0, 0, None], ['add_path', 'Path', 2, 1, None], ['add_path', 'segment', 3, 0, None],
     ['add_path', 'dstring', 4, 2, None], ['add_path', 'Path', 1, 2, ['ga']], ['add_path', 'Path', 4, 0, ['ga', 'gb']],
-    ['add_path', 'Path', 3, 3, None], ['add_path', 'Path', 0, 4, None],
+    ['add_path', 'Path', 3, 3, None], ['add_path', 'Path', 0, 4, None], ['add_path', 'Path', 2, 5, None], ['add_path', 'Path', 1, 6, None],
     ['add_group', ['gc']], ['save'], ['save_reload'],
     # a path object obtained FROM the document, edited in place, then added again (what is stored must be its
     # current geometry, not what the element it came from says)
